@@ -30,12 +30,14 @@ def run(ctx):
     traces = logger_traces(ctx, impl)
     subs = subscription_traces(ctx, impl)
     wruns = writer_family(ctx, impl)
+    fines = fine_traces(ctx, impl)
     hostile_calls(ctx, impl)
     format_total(ctx, impl)
     if model_ok:
         correspond_logger(ctx, traces)
         correspond_subs(ctx, subs)
         correspond_writers(ctx, wruns)
+        correspond_fine(ctx, fines)
         replay_model_witnesses(ctx, impl)
     if not ok:
         # reported even when a failing input was found as well: a finding listed as known must not hide a broken proof
@@ -614,6 +616,240 @@ def correspond_subs(ctx, subs):
                                          prefill=r["prefill"][:50]), has_input=False)
     ctx.extra["correspondence_subscription_traces"] = len(subs)
     ctx.extra["correspondence_subscription_disagreements"] = nbad
+
+
+# ====================================================================== triggers at every point of an incident's life
+def fmsg(cid, lvl, fac=0, fam_spec=None):
+    return ["msg", None, fac, lvl, fam_spec or ["int", 1], "plain", cid]
+
+
+def fixed_fine():
+    """one witness per family: (name, trailing, iterations)"""
+    out = []
+    # second trigger in the same instant as the trailing timer, AFTER it (between stop_recording and finished_recording)
+    out.append(("after-timer", True, [["calls", [fmsg(0, 20), fmsg(1, 30), fmsg(2, 20)], None], ["timer", [], [fmsg(3, 35)]],
+                                      ["timer", [], []], ["timer", [], []]]))
+    # the 100-event quota ends the recording inside a batch; an application observer reacts to a later event of the batch
+    burst = [fmsg(0, 30)] + [fmsg(i, 20) for i in range(1, 104)]
+    out.append(("after-quota", True, [["calls", burst, [101, fmsg(200, 35)]], ["timer", [], []], ["timer", [], []]]))
+    # second trigger while trailing (recorded as a trailing event of the first incident), third after the files are closed
+    out.append(("while-trailing", True, [["calls", [fmsg(0, 30)], None], ["calls", [fmsg(1, 35), fmsg(2, 20)], None],
+                                         ["timer", [], []], ["calls", [fmsg(3, 40)], None], ["timer", [], []], ["timer", [], []]]))
+    # the trigger is the 101st event after the first one / sits beyond the quota inside one burst
+    seq = [["calls", [fmsg(0, 30)], None]] + [["calls", [fmsg(i, 20)], None] for i in range(1, 101)] + \
+          [["calls", [fmsg(101, 30)], None], ["calls", [fmsg(102, 20)], None], ["timer", [], []], ["timer", [], []]]
+    out.append(("quota-101st", True, seq))
+    out.append(("quota-burst", True, [["calls", [fmsg(0, 30)] + [fmsg(i, 20) for i in range(1, 120)] + [fmsg(120, 35)]
+                                       + [fmsg(i, 20) for i in range(121, 130)], None], ["timer", [], []], ["timer", [], []]]))
+    # a call due in the same instant as the trailing timer, BEFORE it
+    out.append(("before-timer", True, [["calls", [fmsg(0, 30)], None], ["timer", [fmsg(1, 30)], []], ["timer", [], []],
+                                       ["timer", [], []]]))
+    out.append(("nontrailing", False, [["calls", [fmsg(0, 30), fmsg(1, 35)], [0, fmsg(2, 30)]], ["timer", [fmsg(3, 30)], [fmsg(4, 40)]]]))
+    return out
+
+
+def gen_fine(rng, impl):
+    its, cid = [], [0]
+
+    def m(lvl=None):
+        fam = rng.choices(["ok", "odd", "bad"], [0.8, 0.15, 0.05])[0]
+        o = ["msg", None, rng.choice([0, 0, 2, 3]), rng.choice([10, 20, 20, 20, 23, 30, 35, 40]) if lvl is None else lvl,
+             impl.gen_value(rng, fam), rng.choice(["plain", "format", "message-kw"]), cid[0]]
+        cid[0] += 1
+        return o
+    trailing = rng.random() < 0.85
+    for k in range(rng.randint(3, 10)):
+        r = rng.random()
+        if r < 0.45:
+            calls = [m() for i in range(rng.randint(1, 5))]
+            react = [rng.randint(0, max(0, len(calls) - 1)), m(rng.choice([20, 30, 35]))] if rng.random() < 0.35 else None
+            its.append(["calls", calls, react])
+        elif r < 0.55:
+            # a burst around the trailing-event quota
+            n = rng.randint(95, 108)
+            calls = [m(30)] + [m(20 if rng.random() < 0.96 else 35) for i in range(n)]
+            react = [rng.randint(96, 104), m(rng.choice([30, 40]))] if rng.random() < 0.7 else None
+            its.append(["calls", calls, react])
+        else:
+            its.append(["timer", [m() for i in range(rng.choice([0, 0, 1, 2]))], [m() for i in range(rng.choice([0, 1, 1, 2]))]])
+    its += [["timer", [], []], ["timer", [], []]]
+    return trailing, its
+
+
+def run_fine(ctx, impl, name, trailing, its):
+    """drive iterations on the real logger; oracle: msg total / numbers increase / every trigger ends up in some incident file"""
+    from foolscap.logging import log as flog
+    rig = impl.LoggerRig("fine", True, trailing, logfile=False)
+    L = rig.L
+    steps, flags = [], []
+    last = [None]
+    replay = dict(trailing=trailing, iterations=its if sum(len(i[1]) for i in its) < 60 else
+                  dict(summary=[[i[0], len(i[1]), (i[2] if i[0] == "calls" else len(i[2]))] for i in its][:130], name=name))
+    with impl.E.quiet():
+        for k, it in enumerate(its):
+            ops = list(it[1]) + ([it[2][1]] if it[0] == "calls" and it[2] else []) if it[0] == "calls" else list(it[1]) + list(it[2])
+            n0 = len(rig.order)
+            res = rig.iteration(it)
+            if len(res) != len(ops):
+                # a reaction that never happened (its index was not reached): the model skips it as well
+                ops = ops[:len(res)]
+            fl = []
+            for (r, exc, reprok), op in zip(res, ops):
+                if exc is not None:
+                    ctx.fail("oracle/msg-raises", "log.msg raised %r in iteration %d (%s)" % (exc, k, name), replay=dict(replay, step=k))
+                elif op[0] in ("msg", "bad"):
+                    if not isinstance(r, int) or (last[0] is not None and r <= last[0]):
+                        ctx.fail("oracle/numbers-not-increasing", "msg returned %r after %r in iteration %d" % (r, last[0], k),
+                                 replay=dict(replay, step=k))
+                    last[0] = r
+                fl.append(reprok)
+            # e_ok per op: from the event it emitted
+            new = rig.order[n0:]
+            okmap = {}
+            for ev in new:
+                i_ = impl.ev_id(ev)
+                if i_ is not None and i_ >= 0 and not impl.plain_ok(ev):
+                    okmap[i_] = False
+            flags.append([(okmap.get(op[6] if op[0] == "msg" else op[2], True), rp) for op, rp in zip(ops, fl)])
+            steps.append([[NORET if (x[0] is None or not isinstance(x[0], int)) else x[0] for x in res],
+                          L.incidents_declared, L.incidents_recorded])
+        rig.turn()
+        files = rig.files()
+        ir = L.get_active_incident_reporter()
+        final = dict(files=files, declared=L.incidents_declared, recorded=L.incidents_recorded, tmp=rig.tmp_count(),
+                     active=ir is not None)
+        # ---- every trigger event ends up in some incident file (header or line)
+        present = set()
+        for f in files:
+            for v in f:
+                present.add(tuple(v))
+        ntrig = 0
+        for ev in rig.order:
+            lvl = ev.get("level")
+            if not isinstance(lvl, int) or lvl < flog.WEIRD:
+                continue
+            if L.buffer_sizes.get(ev.get("facility"), {}).get(lvl, L.DEFAULT_SIZELIMIT) < 0:
+                continue
+            ntrig += 1
+            v = tuple(impl.view(ev))
+            if v in present:
+                continue
+            st_ = rig.at_emission.get(id(ev), {})
+            phase = st_.get("phase")
+            left_ = impl.STOPPED_WITH.get((id(L), st_.get("trigger_num")))
+            if phase == "stopped-but-active":
+                sig, why = "oracle/trigger-lost-after-stop", ("it was emitted after the previous reporter had stopped recording "
+                                                              "(stop_recording) but was still handed to that reporter's new_trigger()")
+            elif phase == "recording":
+                # by design: a trigger emitted while a reporter is recording is an ordinary trailing event of that incident
+                # (new_trigger is the overlap hook) and the reporter's documented limits may drop it
+                quota = left_ is not None and left_ < 0
+                ctx.extra["absorbed_triggers_dropped_by_limits"] = ctx.extra.get("absorbed_triggers_dropped_by_limits", 0) + 1
+                ctx.hist("absorbed_trigger_dropped_by", "trailing-event quota" if quota else "trailing timer")
+                if left_ is None:
+                    ctx.fail("oracle/trigger-lost-while-recording", "%s: trigger event %r was emitted while a reporter was "
+                             "recording, is in no incident file, and that reporter never stopped" % (name, list(v)),
+                             replay=dict(replay, lost=list(v)))
+                continue
+            else:
+                sig, why = "oracle/incident-lost", "no reporter was active when it was emitted"
+            ctx.fail(sig, "%s: trigger event %r (level %r) is in none of the %d incident files: %s; declared=%d recorded=%d"
+                     % (name, list(v), lvl, len(files), why, L.incidents_declared, L.incidents_recorded),
+                     replay=dict(replay, lost=list(v)))
+        left = [f for f in os.listdir(rig.incdir) if not f.endswith(".flog.bz2")]
+        if left:
+            ctx.fail("oracle/incident-leftovers", "%s: files left in the incident directory after everything settled: %r" % (name, left),
+                     replay=replay)
+        rig.close()
+    return dict(name=name, trailing=trailing, its=its, flags=flags, steps=steps, final=final, triggers=ntrig)
+
+
+def fine_traces(ctx, impl):
+    out = []
+    for name, trailing, its in fixed_fine():
+        out.append(run_fine(ctx, impl, name, trailing, its))
+        ctx.case(["fine-fixed", name], nontrivial=True)
+    for i in range(ctx.n(30, 800)):
+        trailing, its = gen_fine(ctx.rng, impl)
+        t = run_fine(ctx, impl, "random", trailing, its)
+        out.append(t)
+        ctx.case(["fine", trailing, its], nontrivial=t["triggers"] >= 2)
+        ctx.hist("fine_triggers", min(t["triggers"], 8))
+        ctx.hist("fine_recorded", min(t["final"]["recorded"], 8))
+    return out
+
+
+FINE_DEFS = """
+Open Scope Z_scope.
+Definition vw (e : event) : list Z := [e_num e; e_id e].
+Definition rz (l : list (option Z)) := map (fun r => match r with Some n => n | None => -1000000 end) l.
+Fixpoint fobs (c : cfg) (f : fine) (its : list iter) :=
+  match its with
+  | [] => ([], f)
+  | it :: t => let '(f1, r) := iterate c f it in let '(l, f2) := fobs c f1 t in
+               ((rz r, i_declared (s_inc (f_s f1)), i_recorded (s_inc (f_s f1))) :: l, f2)
+  end.
+Definition ftrace (c : cfg) (its : list iter) :=
+  let '(l, f) := fobs c fine_init its in
+  (l, map (map vw) (i_files (s_inc (f_s f))), (i_declared (s_inc (f_s f)), i_recorded (s_inc (f_s f))),
+   (i_junk (s_inc (f_s f)) + Z.of_nat (List.length (f_closing f)) + (if is_some (i_rep (s_inc (f_s f))) then 1 else 0))).
+"""
+
+
+def correspond_fine(ctx, traces):
+    nbad = 0
+    small = [t for t in traces if sum(len(i[1]) for i in t["its"]) <= 80]
+    big = [t for t in traces if sum(len(i[1]) for i in t["its"]) > 80]
+    shards = [small[i:i + 40] for i in range(0, len(small), 40)] + [big[i:i + 6] for i in range(0, len(big), 6)]
+    for si, part in enumerate(shards):
+        body = FINE_DEFS
+        for t in part:
+            cits = []
+            for it, fl in zip(t["its"], t["flags"]):
+                if it[0] == "calls":
+                    ops = list(it[1]) + ([it[2][1]] if it[2] else [])
+                    fl = list(fl) + [(True, True)] * (len(ops) - len(fl))
+                    cops = [coq_op(o, f) for o, f in zip(ops, fl)]
+                    n = len(it[1])
+                    react = "None" if not it[2] else "(Some (%d%%nat, %s))" % (it[2][0], cops[n])
+                    cits.append("ICalls %s %s" % (coq_list(cops[:n]), react))
+                else:
+                    ops = list(it[1]) + list(it[2])
+                    fl = list(fl) + [(True, True)] * (len(ops) - len(fl))
+                    cops = [coq_op(o, f) for o, f in zip(ops, fl)]
+                    cits.append("ITimer %s %s" % (coq_list(cops[:len(it[1])]), coq_list(cops[len(it[1]):])))
+            body += "Eval vm_compute in ftrace (mkCfg true %s NoFault) %s.\n" % (coq_bool(t["trailing"]), coq_list(cits))
+        try:
+            vals = ctx.coq_eval("C18_fine_%d" % si, body, requires=REQ)
+        except common.CoqEvalError as e:
+            ctx.fail("correspondence-broken", "the fine-grained model could not be evaluated: " + str(e)[-1500:], has_input=False)
+            return
+        for t, (msteps, mfiles, (mdecl, mrec), mtmp) in zip(part, vals):
+            ms = [[list(a), b, c] for (a, b, c) in msteps]
+            fin = t["final"]
+            mf = [[list(x) for x in f] for f in mfiles]
+            diffs = []
+            if ms != t["steps"]:
+                k = next((i for i, (a, b) in enumerate(zip(ms, t["steps"])) if a != b), -1)
+                diffs.append("iteration %d (returned numbers, declared, recorded): model %r, implementation %r, %r"
+                             % (k, ms[k] if k >= 0 else None, t["steps"][k] if k >= 0 else None,
+                                (t["its"][k][0], len(t["its"][k][1])) if k >= 0 else None))
+            if mf != [[list(x) for x in f] for f in fin["files"]]:
+                diffs.append("incident files: model %r, implementation %r" % ([[x[1] for x in f][:8] for f in mf],
+                                                                              [[x[1] for x in f][:8] for f in fin["files"]]))
+            if (mdecl, mrec) != (fin["declared"], fin["recorded"]):
+                diffs.append("declared/recorded: model %r, implementation %r" % ((mdecl, mrec), (fin["declared"], fin["recorded"])))
+            if mtmp != fin["tmp"]:
+                diffs.append("unfinished incidents: model %d, implementation %d .tmp files" % (mtmp, fin["tmp"]))
+            ctx.traces += 1
+            if diffs:
+                nbad += 1
+                if nbad <= 3:
+                    ctx.fail("correspondence/fine", "%s: model and implementation disagree: %s" % (t["name"], "; ".join(diffs)[:1800]),
+                             replay=dict(name=t["name"], trailing=t["trailing"],
+                                         iterations=t["its"] if len(str(t["its"])) < 4000 else "long"), has_input=False)
+    ctx.extra["correspondence_fine_traces"] = len(traces)
+    ctx.extra["correspondence_fine_disagreements"] = nbad
 
 
 # ====================================================================== every writer of log files reads back
